@@ -55,7 +55,23 @@ CLAIM = {
             '(compared at 1e-12). Partial: the multiuser frequency-domain clause is instantiated for SISO links '
             '(MIMO links follow from mu_superposition + freq_mimo_spec but are not spelled out); a Python exception '
             'ends the modelled history; n = 0 transmissions, fft_size = 0, boolean / 2-D index arrays and unsorted '
-            'hand-made profiles are outside model and correspondence; binary64 rounding is outside every theorem.',
+            'hand-made profiles are outside model and correspondence; binary64 rounding is outside every theorem. '
+            'Robustness classes: R1 (element types of signals, path loss, fft_size, index arrays, profile arrays) and '
+            'R2 (non-contiguous / Fortran / strided / reversed views, size-0 signals, 1-D vs (1,n)) - the model is a '
+            'function of the logical values only, so independence of dtype / layout is covered by the exact '
+            'correspondence and the first-principles oracles, not by a theorem; R3 (inputs unchanged, earlier outputs '
+            'unchanged, no aliasing) - model outputs are fresh values by construction, the real objects are checked by '
+            'snapshots in correspondence and oracles; R4 (rejected calls) - theorems rejected_call_leaves_state, '
+            'history_rejected_calls_removable, rejected_transmissions, tied by correspondence of histories that go on '
+            'after every rejected call plus observables / twin-object oracle; R5 (path loss 0 / 1 / None, zero matrix '
+            'entries, single tap, one symbol, fft_size 1, first / last carrier) - theorem pathloss_zero and the '
+            'general theorems, plus correspondence / oracle witnesses; R6 (inputs scaled by 2^-40..2^40 exactly, '
+            '1e-12..1e12 in the oracles, tolerances relative to the input scale) - the theorems are scale-free '
+            '(linearity), code checked by correspondence / oracle; R7 (set_num_antennas incl. (None, None), '
+            'user-called generate_impulse_response, repeated setters, shared profile / prototype generator) - '
+            'theorems transmission_ignores_old_response, history_position, rest by correspondence / oracle. Sharing '
+            'ONE stateful fading generator between two TdlChannels is not covered (the library hands out similar '
+            'generators for that).',
 }
 
 SEEDMOD = 1 << 20
@@ -187,19 +203,31 @@ def sig2s(y):
     return ';'.join(row2s(r) for r in y)
 
 
-def xs2s(x):
-    """model signal (list of rows of [re, im]) -> protocol string"""
-    return ';'.join(','.join(('%d' % e[0]) if e[1] == 0 else '%d_%d' % (e[0], e[1]) for e in row) for row in x)
+def elem2s(e, scale=0):
+    f = Fraction(2) ** scale
+
+    def q(v):
+        fr = Fraction(v) * f
+        return str(fr.numerator) if fr.denominator == 1 else '%d/%d' % (fr.numerator, fr.denominator)
+    return q(e[0]) if e[1] == 0 else q(e[0]) + '_' + q(e[1])
 
 
-def x2np(x):
-    return np.array([[complex(e[0], e[1]) for e in row] for row in x], dtype=complex).reshape(len(x), -1)
+def xs2s(x, scale=0):
+    """model signal (list of rows of [re, im], times 2**scale) -> protocol string"""
+    return ';'.join(','.join(elem2s(e, scale) for e in row) for row in x)
 
 
-def ir2s(ir, mimo):
+def x2np(x, scale=0):
+    """the LOGICAL value of a signal: complex128, C order, rows x n"""
+    a = np.array([[complex(e[0], e[1]) for e in row] for row in x], dtype=complex).reshape(len(x), -1)
+    return a * (2.0 ** scale) if scale else a
+
+
+def ir2s(ir):
     sp = np.asarray(ir.tap_values_sparse)
     de = np.asarray(ir.tap_values)
     n = sp.shape[-1]
+    mimo = sp.ndim == 4
 
     def cell(a):
         if not mimo:
@@ -219,11 +247,34 @@ def sel2s(sel):
     return 's=' + '.'.join('N' if v is None else str(v) for v in sel['slice'])
 
 
+def layout_view(a, layout):
+    """R2: the same values in another memory layout (never C-contiguous unless layout == 'c')"""
+    a = np.asarray(a)
+    if layout == 'f':
+        return np.asfortranarray(a)
+    if layout == 'strided' and a.ndim >= 1:
+        big = np.zeros(a.shape[:-1] + (2 * a.shape[-1],), dtype=a.dtype)
+        big[..., ::2] = a
+        return big[..., ::2]
+    if layout == 'rev' and a.ndim >= 1:
+        return np.ascontiguousarray(a[..., ::-1])[..., ::-1]
+    if layout == 'rowstrided' and a.ndim >= 2:
+        big = np.zeros((2 * a.shape[0],) + a.shape[1:], dtype=a.dtype)
+        big[::2] = a
+        return big[::2]
+    if layout == 'T' and a.ndim == 2:
+        return np.ascontiguousarray(a.T).T
+    return np.ascontiguousarray(a)
+
+
 def sel2py(sel):
     if sel['kind'] == 'all':
         return None
     if sel['kind'] == 'idx':
-        return np.array(sel['idx'], dtype=int) if sel.get('as_array', True) else list(sel['idx'])
+        dt = sel.get('dtype', 'int64')
+        if dt == 'list' or not sel.get('as_array', True):
+            return list(sel['idx'])
+        return layout_view(np.array(sel['idx'], dtype=dt), sel.get('layout', 'c'))
     return slice(*sel['slice'])
 
 
@@ -241,6 +292,7 @@ def case_line(case):
         head += ' nrx=%d ntx=%d' % (case['nrx'], case['ntx'])
     else:
         head += ' link=%d' % case['link']
+    mu = case['level'] == 'mu'
     toks = []
     for op in case['ops']:
         k = op['op']
@@ -248,25 +300,51 @@ def case_line(case):
             toks.append('ir')
         elif k == 'sw':
             toks.append('sw:%d' % (1 if op['v'] else 0))
+        elif k == 'swbad':
+            toks.append('reject:TypeError')
+        elif k == 'plbad':
+            toks.append('reject:ValueError')
         elif k == 'pl':
-            if case['level'] == 'mu':
+            if mu:
                 toks.append('pl:' + ';'.join(','.join(r) for r in op['s']))
             else:
                 toks.append('pl:' + ('none' if op['s'] is None else op['s']))
-        elif k == 'tx':
-            toks.append('tx:' + ('|'.join(xs2s(x) for x in op['x']) if case['level'] == 'mu' else xs2s(op['x'])))
-        elif k == 'fx':
-            xs = '|'.join(xs2s(x) for x in op['x']) if case['level'] == 'mu' else xs2s(op['x'])
-            toks.append('fx:%d:%s:%s' % (op['fft'], sel2s(op['sel']), xs))
+        elif k == 'setant':
+            toks.append('setant:' + ('0' if op['ant'] is None else '%dx%d' % tuple(op['ant'])))
+        elif k == 'gen':
+            toks.append('gen:%d' % op['n'])
+        elif k in ('tx', 'fx'):
+            sc = op.get('scale', 0)
+            xs = '|'.join(xs2s(x, sc) for x in op['x']) if mu else xs2s(op['x'], sc)
+            toks.append('tx:' + xs if k == 'tx' else 'fx:%d:%s:%s' % (op['fft'], sel2s(op['sel']), xs))
     return head + ' ' + ' '.join(toks)
+
+
+def profile_arrays(case, powers_dB):
+    """R1 / R2 on the profile arrays: integer / float32 dtypes and strided views where exact"""
+    Ts = case['Ts']
+    d = np.array(case['delays'], dtype=float) * Ts
+    p = np.array(powers_dB, dtype=float)
+    pd = case.get('prof_dtype')
+    if pd == 'int' and Ts == 1.0:
+        d = np.array(case['delays'], dtype=np.int64)
+        if np.all(p == np.round(p)):
+            p = p.astype(np.int32)
+    elif pd == 'float32' and Ts in (1.0, 0.5, 0.25):
+        d = d.astype(np.float32)
+    if case.get('prof_layout') == 'strided':
+        d, p = layout_view(d, 'strided'), layout_view(p, 'strided')
+    return p, d
 
 
 def build_profile(case):
     """discretised profile with exact (perfect-square) linear powers"""
     from pyphysim.channels import fading
     Ts = case['Ts']
-    delays = np.array(case['delays'], dtype=float) * Ts
-    prof = fading.TdlChannelProfile(np.zeros(len(case['delays'])), delays).get_discretize_profile(Ts)
+    p0, d0 = profile_arrays(case, np.zeros(len(case['delays'])))
+    keep = (p0.copy(), d0.copy())
+    prof = fading.TdlChannelProfile(p0, d0).get_discretize_profile(Ts)
+    assert np.array_equal(p0, keep[0]) and np.array_equal(d0, keep[1]), 'profile arrays modified'
     amps = np.array([float(Fraction(a)) for a in case['amps']])
     assert list(prof.tap_delays) == list(case['delays']), (prof.tap_delays, case['delays'])
     p = amps ** 2
@@ -276,97 +354,259 @@ def build_profile(case):
 
 
 def build_channel(case):
-    from pyphysim.channels import fading, singleuser, multiuser
-    ScriptedRayleigh, ScriptedJakes = _generators()
-    prof = build_profile(case)
+    """the real object of a scenario.  `real` scenarios use the untouched generators and a dB profile,
+    the others scripted fading and perfect-square powers."""
+    from pyphysim.channels import fading, fading_generators as fg, singleuser, multiuser
     Ts = case['Ts']
     ant = case['ant']
+    real = bool(case.get('real'))
+    if real:
+        np.random.seed(case['npseed'])
+        p0, d0 = profile_arrays(case, case['powers_dB'])
+        prof = fading.TdlChannelProfile(p0, d0)
+        if case.get('prediscretized', True):
+            prof = prof.get_discretize_profile(Ts)
+
+        def newgen(shape):
+            if case['jakes']:
+                return fg.JakesSampleGenerator(Fd=case.get('Fd', 30.0), Ts=Ts, L=case.get('L', 8), shape=shape,
+                                               RS=np.random.RandomState(case['npseed']))
+            return fg.RayleighSampleGenerator(shape=shape)
+        tsarg = None if (case['jakes'] or prof.is_discretized) else Ts
+    else:
+        ScriptedRayleigh, ScriptedJakes = _generators()
+        prof = build_profile(case)
+        script = Script(case['seed'], first_link=-1 if case['level'] == 'mu' else case['link'])
+
+        def newgen(shape):
+            return ScriptedJakes(script, Ts, shape=shape) if case['jakes'] else ScriptedRayleigh(script, shape=shape)
+        tsarg = None
     if case['level'] == 'mu':
-        script = Script(case['seed'], first_link=-1)       # the prototype generator takes link -1
-        gen = ScriptedJakes(script, Ts) if case['jakes'] else ScriptedRayleigh(script)
+        gen = newgen(None)          # the prototype (scripted: link -1); links get similar generators
         N = (case['nrx'], case['ntx'])
         if case['nrx'] == case['ntx'] and case.get('n_as_int'):
             N = case['nrx']
         if ant is None:
-            return multiuser.MuChannel(N, gen, channel_profile=prof, Ts=Ts if not case['jakes'] else None)
-        return multiuser.MuMimoChannel(N, ant[0], ant[1], gen, channel_profile=prof)
-    script = Script(case['seed'], first_link=case['link'])
+            ch = multiuser.MuChannel(N, gen, channel_profile=prof, Ts=tsarg)
+        else:
+            ch = multiuser.MuMimoChannel(N, ant[0], ant[1], gen, channel_profile=prof, Ts=tsarg)
+        ch._verif_proto = gen
+        return ch
     shape = None if (ant is None or case.get('late_ant')) else tuple(ant)
-    gen = ScriptedJakes(script, Ts, shape=shape) if case['jakes'] else ScriptedRayleigh(script, shape=shape)
+    gen = newgen(shape)
     if case['level'] == 'tdl':
-        ch = fading.TdlChannel(gen, channel_profile=prof)
+        ch = fading.TdlChannel(gen, channel_profile=prof, Ts=tsarg)
     else:
-        ch = singleuser.SuChannel(gen, channel_profile=prof)
+        ch = singleuser.SuChannel(gen, channel_profile=prof, Ts=tsarg)
     if ant is not None and case.get('late_ant'):
         ch.set_num_antennas(ant[0], ant[1])
     return ch
 
 
-def np_signal(case, op, x):
-    a = x2np(x)
-    if op.get('as1d') and a.shape[0] == 1:
-        a = a[0]
-    if op.get('real') and not np.iscomplexobj(a):
-        pass
-    if op.get('real'):
-        a = a.real.copy()
-    return a
+def cast_signal(a, dtype):
+    """R1: the same values in another element type (the generator only asks for exact casts)"""
+    if dtype in (None, 'complex128'):
+        return a
+    if dtype.startswith('complex'):
+        return a.astype(dtype)
+    return a.real.astype(dtype)
+
+
+def make_signal(case, op):
+    """the array handed to the real code for a transmission (R1 dtype, R2 layout, R6 scale, 1-D / 2-D)"""
+    mu = case['level'] == 'mu'
+    siso = op.get('siso', case['ant'] is None)
+    sc = op.get('scale', 0)
+
+    def one(x):
+        a = cast_signal(x2np(x, sc), op.get('dtype'))
+        if siso:
+            return a.reshape(-1) if a.shape[0] == 1 else a        # a malformed SISO signal stays 2-D
+        if op.get('as1d') and a.shape[0] == 1:
+            return a[0]
+        return a
+    if not mu:
+        return layout_view(one(op['x']), op.get('layout', 'c'))
+    parts = [one(x) for x in op['x']]
+    sig = np.array(parts) if parts else np.zeros((0, 0))
+    if siso and sig.ndim == 2 and sig.shape[0] == 1 and op.get('as1d'):
+        sig = sig[0]
+    return layout_view(sig, op.get('layout', 'c'))
+
+
+def make_pl(op):
+    """R1 / R5: the path loss value in several element types; `s` is its exact square root"""
+    if op.get('p') is not None:
+        return op['p']
+    if op['s'] is None:
+        return None
+    p = float(Fraction(op['s']) ** 2)
+    t = op.get('pltype')
+    if t == 'int':
+        return int(p)
+    if t in ('int8', 'uint8', 'int16', 'int64'):
+        return getattr(np, t)(int(p))
+    if t in ('float32', 'float16'):
+        return getattr(np, t)(p)
+    if t == 'arr0d':
+        return np.array(p)
+    return p
+
+
+def make_plmatrix(op):
+    if op.get('p') is not None:
+        return np.array(op['p'], dtype=float)
+    m = np.array([[float(Fraction(v) ** 2) for v in r] for r in op['s']])
+    dt = op.get('pldtype')
+    if dt == 'int':
+        m = m.astype(np.int64)
+    elif dt == 'float32':
+        m = m.astype(np.float32)
+    return layout_view(m, op.get('pllayout', 'c'))
+
+
+def make_fft(op):
+    t = op.get('fft_type')
+    return getattr(np, t)(op['fft']) if t else op['fft']
+
+
+class Rec:
+    """R3 bookkeeping: snapshots of every array passed in, and of every array handed back"""
+
+    def __init__(self):
+        self.inputs, self.outputs = [], []
+
+    def passing(self, what, a):
+        if isinstance(a, np.ndarray):
+            self.inputs.append((what, a, a.copy(), a.dtype, a.strides))
+        return a
+
+    def returned(self, what, a, against=()):
+        for arr in (a if isinstance(a, (list, tuple)) or (isinstance(a, np.ndarray) and a.dtype == object) else [a]):
+            arr = np.asarray(arr)
+            for inp in against:
+                if isinstance(inp, np.ndarray) and inp.size and arr.size and np.shares_memory(arr, inp):
+                    return 'output-aliases-input:' + what
+            self.outputs.append((what, arr, arr.copy()))
+        return None
+
+    def violations(self):
+        out = []
+        for what, a, snap, dt, st in self.inputs:
+            if a.dtype != dt or a.shape != snap.shape or not np.array_equal(a, snap):
+                out.append('input-modified:' + what)
+        for what, a, snap in self.outputs:
+            if a.shape != snap.shape or not np.array_equal(a, snap, equal_nan=True):
+                out.append('earlier-output-changed:' + what)
+        return out
+
+
+def links_of(ch, case):
+    if case['level'] == 'tdl':
+        return [(ch, None)]
+    if case['level'] == 'su':
+        return [(ch._tdlchannel, ch)]
+    return [(su._tdlchannel, su) for su in ch._su_siso_channels.reshape(-1)]
+
+
+def observe(ch, case):
+    """R4: everything a caller can see of the object (and the position of its fading generators)"""
+    obs = []
+    for tdl, su in links_of(ch, case):
+        g = tdl._fading_generator
+        ir = tdl._last_impulse_response
+        obs.append((None if ir is None else (id(ir), np.asarray(ir.tap_values_sparse).tobytes()),
+                    tdl.switched_direction, tuple(g.shape), getattr(g, '_current_time', None),
+                    getattr(g, '_pos', None), None if su is None else repr(su._pathloss_value)))
+    if case['level'] == 'mu':
+        obs.append(None if ch.pathloss_matrix is None else np.asarray(ch.pathloss_matrix).tobytes())
+    if case.get('real') and not case['jakes']:
+        st = np.random.get_state()
+        obs.append((st[1][:8].tobytes(), st[2]))
+    return obs
+
+
+def apply_op(ch, case, op, rec, patched):
+    """one operation on the real object; returns ('y', array) | ('ir', [responses]) | ('ok',)"""
+    k = op['op']
+    mu = case['level'] == 'mu'
+    if k == 'ir':
+        if mu:
+            irs = [ch.get_last_impulse_response(r, t) for r in range(case['nrx']) for t in range(case['ntx'])]
+        else:
+            irs = [ch.get_last_impulse_response()]
+        for ir in irs:
+            rec.returned('impulse-response', ir.tap_values_sparse)
+        return ('ir', irs)
+    if k in ('sw', 'swbad'):
+        ch.switched_direction = bool(op['v']) if k == 'sw' else op['v']
+        return ('ok',)
+    if k in ('pl', 'plbad'):
+        v = rec.passing('pathloss-matrix', make_plmatrix(op)) if mu else make_pl(op)
+        ch.set_pathloss(v)
+        return ('ok',)
+    if k == 'setant':
+        a = op['ant']
+        ch.set_num_antennas(*(a if a is not None else (None, None)))
+        return ('ok',)
+    if k == 'gen':
+        ch.generate_impulse_response(op['n'])
+        return ('ok',)
+    sig = rec.passing('signal', make_signal(case, op))
+    if k == 'tx':
+        y = ch.corrupt_data(sig)
+        against = (sig,)
+    else:
+        idx = sel2py(op['sel'])
+        rec.passing('carrier-indexes', idx)
+        if patched:
+            with patched_fft():
+                y = ch.corrupt_data_in_freq_domain(sig, make_fft(op), idx)
+        else:
+            y = ch.corrupt_data_in_freq_domain(sig, make_fft(op), idx)
+        against = (sig, idx)
+    alias = rec.returned('received-signal', y, against)
+    if alias:
+        rec.inputs.append((alias, np.zeros(1), np.ones(1), float, None))      # reported by violations()
+    return ('y', y)
+
+
+def result_token(case, res):
+    if res[0] == 'ok':
+        return 'ok'
+    if res[0] == 'ir':
+        return ' & '.join(ir2s(ir) for ir in res[1])
+    y = res[1]
+    if case['level'] == 'mu':
+        return 'y=' + '|'.join(sig2s(v) for v in y)
+    return 'y=' + sig2s(y)
+
+
+CAUGHT = (ValueError, IndexError, ZeroDivisionError, RuntimeError, AssertionError, TypeError, OverflowError,
+          AttributeError)
 
 
 def run_impl(case):
-    """drive the real objects; returns the reply tokens in the driver's format"""
+    """drive the real objects through the whole history (a rejected call does not end it: R4);
+    returns the reply tokens in the driver's format; R3 violations are appended as extra tokens"""
     ch = build_channel(case)
-    mimo = case['ant'] is not None
+    rec = Rec()
     out = []
     for op in case['ops']:
-        k = op['op']
         try:
-            if k == 'ir':
-                if case['level'] == 'mu':
-                    out.append(' & '.join(ir2s(ch.get_last_impulse_response(r, t), mimo)
-                                          for r in range(case['nrx']) for t in range(case['ntx'])))
-                else:
-                    out.append(ir2s(ch.get_last_impulse_response(), mimo))
-            elif k == 'sw':
-                ch.switched_direction = bool(op['v'])
-                out.append('ok')
-            elif k == 'pl':
-                if case['level'] == 'mu':
-                    ch.set_pathloss(np.array([[float(Fraction(v)) ** 2 for v in r] for r in op['s']]))
-                else:
-                    ch.set_pathloss(None if op['s'] is None else float(Fraction(op['s'])) ** 2)
-                out.append('ok')
-            elif k in ('tx', 'fx'):
-                if case['level'] == 'mu':
-                    sigs = [np_signal(case, op, x) for x in op['x']]
-                    sig = np.array(sigs)
-                    if not mimo:
-                        sig = sig.reshape(len(sigs), -1)
-                        if op.get('as1d') and sig.shape[0] == 1:
-                            sig = sig[0]
-                else:
-                    sig = np_signal(case, op, op['x'])
-                    if not mimo:
-                        sig = sig.reshape(-1)
-                if k == 'tx':
-                    y = ch.corrupt_data(sig)
-                else:
-                    with patched_fft():
-                        y = ch.corrupt_data_in_freq_domain(sig, op['fft'], sel2py(op['sel']))
-                if case['level'] == 'mu':
-                    out.append('y=' + '|'.join(sig2s(v) for v in y))
-                else:
-                    out.append('y=' + sig2s(y))
-        except (ValueError, IndexError, ZeroDivisionError, RuntimeError, AssertionError, TypeError) as e:
+            out.append(result_token(case, apply_op(ch, case, op, rec, True)))
+        except CAUGHT as e:
             out.append(err2s(e))
-            break
+    out += ['R3:' + v for v in rec.violations()]
     return out
 
 
 # --------------------------------------------------------------------------- generators of cases
 AMPS = ['1', '2', '3', '1/2', '3/2', '1/4', '1', '1']
-PLS = ['1', '1/2', '1/4', '3/4', '1/8']
-TS_CHOICES = [1.0, 0.5, 0.25, 1e-3, 3.25e-8]
+PLS = ['1', '1/2', '1/4', '3/4', '1/8', '0', '1/1048576', '1']
+TS_CHOICES = [1.0, 0.5, 0.25, 1e-3, 3.25e-8, 1e-9, 1024.0]
+SCALES = [0, 0, 0, -40, -20, 20, 40]
+FFT_TYPES = [None, None, None, 'int8', 'uint8', 'int16', 'uint16', 'int32', 'int64']
 
 
 def gen_signal(rng, rows, n, lim=4, real=False):
@@ -382,17 +622,27 @@ def gen_sel(rng, fft):
         ln = rng.randint(0 if rng.chance(0.05) else 1, min(fft + 2, 9))
         lo = -fft if rng.chance(0.4) else 0
         idx = [rng.randint(lo, fft - 1) for _ in range(ln)]
+        if rng.chance(0.25) and ln:                      # R5: first / last carrier
+            idx[rng.below(ln)] = rng.choice([0, fft - 1, -1, -fft])
         bad = False
-        if rng.chance(0.06) and ln:
+        if rng.chance(0.08) and ln:
             idx[rng.below(ln)] = rng.choice([fft, fft + 1, -fft - 1])
             bad = True
-        return {'kind': 'idx', 'idx': idx, 'as_array': rng.chance(0.6)}, (None if bad else ln)
+        sel = {'kind': 'idx', 'idx': idx, 'as_array': rng.chance(0.7)}
+        cands = ['int64', 'int64', 'int32', 'int16', 'list']
+        if all(-128 <= i < 128 for i in idx):
+            cands.append('int8')
+        if all(0 <= i < 256 for i in idx):
+            cands.append('uint8')
+        sel['dtype'] = rng.choice(cands)
+        sel['layout'] = rng.choice(['c', 'c', 'strided', 'rev'])
+        return sel, (None if bad else ln)
     lim = fft + 3
 
     def ov():
         return None if rng.chance(0.3) else rng.randint(-lim, lim)
     step = None if rng.chance(0.25) else rng.choice([1, 1, 2, 2, 3, 3, 4, 5, 7, -1, -1, -2, -3, -4])
-    if rng.chance(0.02):
+    if rng.chance(0.03):
         step = 0
     sl = [ov(), ov(), step]
     if step == 0:
@@ -412,48 +662,137 @@ def gen_delays(rng, maxd):
     return ds
 
 
+def all_elems(x):
+    """every [re, im] element of a (possibly nested per-source) signal"""
+    if isinstance(x, list) and len(x) == 2 and all(isinstance(v, int) for v in x):
+        return [x]
+    out = []
+    for v in x:
+        out += all_elems(v)
+    return out
+
+
+def signal_variants(rng, op, real, n):
+    """R1 / R2 / R6 decoration of a transmission"""
+    sc = rng.choice(SCALES)
+    op['scale'] = sc
+    cands = ['complex128', 'complex128', 'complex64']
+    if real:
+        cands += ['float64', 'float32']
+        if sc == 0:
+            cands += ['float16', 'int8', 'int16', 'int32', 'int64']
+            if all(e[0] >= 0 for e in all_elems(op['x'])):
+                cands.append('uint8')
+    op['dtype'] = rng.choice(cands)
+    op['layout'] = rng.choice(['c', 'c', 'f', 'strided', 'rev', 'rowstrided'])
+    op['real'] = real
+
+
 def gen_ops(rng, case, nops, quick=True):
+    """a history: transmissions in both domains, every public mutator, rejected calls in between"""
     ops = []
-    mu = case['level'] == 'mu'
+    level = case['level']
+    mu = level == 'mu'
     ant = case['ant']
     sw = False
+    if rng.chance(0.12):
+        ops.append({'op': 'ir', 'expect': 'reject'})           # nothing transmitted yet: RuntimeError
     for _ in range(nops):
-        k = rng.below(12)
-        if k == 0 and case['level'] != 'tdl_nosw':
+        k = rng.below(24)
+        if k == 0:
             sw = not sw if rng.chance(0.8) else sw
             ops.append({'op': 'sw', 'v': sw})
             continue
-        if k == 1 and case['level'] in ('su', 'mu'):
+        if k == 1 and rng.chance(0.5):
+            ops.append({'op': 'swbad', 'v': rng.choice([1, 0, 'yes']), 'expect': 'reject'})
+            continue
+        if k in (2, 3) and level in ('su', 'mu'):
             if mu:
-                ops.append({'op': 'pl', 's': [[rng.choice(PLS) for _ in range(case['ntx'])]
-                                              for _ in range(case['nrx'])]})
+                m = [[rng.choice(PLS) for _ in range(case['ntx'])] for _ in range(case['nrx'])]
+                op = {'op': 'pl', 's': m, 'pllayout': rng.choice(['c', 'f', 'T', 'strided', 'rowstrided'])}
+                if all(v in ('0', '1') for r in m for v in r):
+                    op['pldtype'] = rng.choice(['int', 'float64'])
+                elif all(Fraction(v).denominator <= 1024 for r in m for v in r):
+                    op['pldtype'] = rng.choice(['float32', 'float64', 'float64'])
+                ops.append(op)
             else:
-                ops.append({'op': 'pl', 's': None if rng.chance(0.2) else rng.choice(PLS)})
+                s = None if rng.chance(0.15) else rng.choice(PLS)
+                op = {'op': 'pl', 's': s}
+                if s in ('0', '1'):
+                    op['pltype'] = rng.choice([None, 'int', 'int8', 'uint8', 'int64', 'float32', 'float16', 'arr0d'])
+                elif s is not None and s != '1/1048576':
+                    op['pltype'] = rng.choice([None, None, 'float32', 'float16', 'arr0d'])
+                ops.append(op)
+            continue
+        if k == 4 and level in ('su', 'mu') and rng.chance(0.5):
+            bad = rng.choice([-0.25, 1.5, -1e-9, 2])
+            if mu:
+                m = [[0.5 for _ in range(case['ntx'])] for _ in range(case['nrx'])]
+                m[rng.below(case['nrx'])][rng.below(case['ntx'])] = bad
+                ops.append({'op': 'plbad', 'p': m, 'expect': 'reject'})
+            else:
+                ops.append({'op': 'plbad', 'p': bad, 'expect': 'reject'})
+            continue
+        if k == 5 and level in ('tdl', 'su') and rng.chance(0.7):
+            ant = None if rng.chance(0.3) else [rng.randint(1, 3), rng.randint(1, 3)]
+            ops.append({'op': 'setant', 'ant': ant})
+            continue
+        if k == 6 and level == 'tdl' and rng.chance(0.6):
+            ops.append({'op': 'gen', 'n': rng.randint(1, 5)})
+            ops.append({'op': 'ir'})
             continue
         # a transmission
-        if ant is None:
-            rows = 1
-        else:
-            rows = ant[0] if sw else ant[1]
+        siso = ant is None
+        rows = 1 if siso else (ant[0] if sw else ant[1])
         nsrc = (case['nrx'] if sw else case['ntx']) if mu else 1
-        real = rng.chance(0.15)
-        as1d = rng.chance(0.5)
-        if k < 7:
-            n = rng.randint(1, 10 if quick else 24)
-            xs = [gen_signal(rng, rows, n, real=real) for _ in range(nsrc)]
-            ops.append({'op': 'tx', 'x': xs if mu else xs[0], 'as1d': as1d, 'real': real})
+        real = rng.chance(0.3)
+        expect = 'ok'
+        cls = None
+        bad_shape = rng.chance(0.1)
+        use_rows, use_src = rows, nsrc
+        if bad_shape:
+            if mu and rng.chance(0.5):
+                use_src = nsrc + rng.choice([1, -1]) if nsrc > 1 else nsrc + 1
+                cls = 'wrong-source-count'
+            elif not siso:
+                use_rows = rows + 1 if (rows == 1 or rng.chance(0.5)) else rows - 1
+                cls = 'wrong-row-count'
+            else:
+                bad_shape = False
+            if bad_shape:
+                expect = 'reject'
+        op = {'siso': siso, 'as1d': rng.chance(0.5), 'expect': expect}
+        if k < 15:
+            n = 0 if rng.chance(0.04) else rng.randint(1, 10 if quick else 24)
+            xs = [gen_signal(rng, use_rows, n, real=real) for _ in range(use_src)]
+            op.update({'op': 'tx', 'x': xs if mu else xs[0]})
         else:
-            fft = rng.randint(1, 16) if rng.chance(0.8) else rng.choice([1, 2, 4, 8, 16, 32])
+            fft = rng.randint(1, 16) if rng.chance(0.7) else rng.choice([1, 2, 3, 4, 5, 7, 8, 9, 15, 16, 17, 25, 31, 32, 33])
             sel, B = gen_sel(rng, fft)
             if B is None or B == 0:
                 n = rng.randint(1, 6)
+                expect = 'reject'
+                cls = cls or ('bad-selection' if B is None else 'empty-selection')
             else:
                 n = B * rng.randint(1, 3)
-                if rng.chance(0.06):
-                    n += rng.randint(1, max(1, B - 1)) if B > 1 else 0
-            xs = [gen_signal(rng, rows, n, real=real) for _ in range(nsrc)]
-            ops.append({'op': 'fx', 'fft': fft, 'sel': sel, 'x': xs if mu else xs[0], 'as1d': as1d, 'real': real})
-        ops.append({'op': 'ir'})
+                if rng.chance(0.08):
+                    if rng.chance(0.3):
+                        n = 0
+                    else:
+                        n += rng.randint(1, max(1, B - 1)) if B > 1 else 0
+                    if n % B != 0 or n == 0:
+                        expect = 'reject'
+                        cls = cls or 'bad-length'
+            xs = [gen_signal(rng, use_rows, n, real=real) for _ in range(use_src)]
+            op.update({'op': 'fx', 'fft': fft, 'sel': sel, 'x': xs if mu else xs[0], 'expect': expect,
+                       'fft_type': rng.choice(FFT_TYPES)})
+            if op['fft_type'] == 'int8' and fft > 127:
+                op['fft_type'] = 'int16'
+        if cls:
+            op['reject_class'] = cls
+        signal_variants(rng, op, real, n)
+        ops.append(op)
+        ops.append({'op': 'ir', 'expect': 'any'})
     return ops
 
 
@@ -465,7 +804,8 @@ def gen_case(rng, level, quick=True):
     delays = gen_delays(rng, 6 if quick else 9)
     case = {'level': level, 'seed': rng.below(SEEDMOD), 'jakes': jakes, 'ant': ant, 'delays': delays,
             'amps': [rng.choice(AMPS) for _ in delays], 'Ts': rng.choice(TS_CHOICES),
-            'late_ant': rng.chance(0.3)}
+            'late_ant': rng.chance(0.3), 'prof_dtype': rng.choice([None, None, 'int', 'float32']),
+            'prof_layout': rng.choice(['c', 'c', 'strided'])}
     if level == 'mu':
         case['nrx'] = rng.randint(1, 3)
         case['ntx'] = rng.randint(1, 3)
@@ -474,8 +814,81 @@ def gen_case(rng, level, quick=True):
             case['ant'] = [rng.randint(1, 2), rng.randint(1, 2)]
     else:
         case['link'] = rng.below(50)
-    case['ops'] = gen_ops(rng, case, rng.randint(1, 6) if level != 'mu' else rng.randint(1, 4), quick)
+    case['ops'] = gen_ops(rng, case, rng.randint(1, 7) if level != 'mu' else rng.randint(1, 5), quick)
     return case
+
+
+def real_twin_of(rng, case):
+    """the same history on the untouched generators / FFT and a real dB profile (oracle scenario)"""
+    c = dict(case)
+    c['real'] = True
+    c['npseed'] = rng.below(1 << 30)
+    off = rng.choice([0.0, 0.0, -150.0, 120.0])               # R6: powers around -150 dBm / +120 dB
+    c['powers_dB'] = [off - rng.randint(0, 30) / 2.0 for _ in case['delays']]
+    if rng.chance(0.15):
+        c['powers_dB'][rng.below(len(c['powers_dB']))] = off    # R5: 0 dB relative tap
+    c['prediscretized'] = rng.chance(0.5)
+    return c
+
+
+def op_tags(case, op):
+    """robustness classes an operation exercises (branch names and failure-class components)"""
+    t = []
+    k = op['op']
+    if k in ('tx', 'fx'):
+        if op.get('dtype') not in (None, 'complex128'):
+            t.append('R1:signal-dtype')
+        if op.get('layout', 'c') != 'c':
+            t.append('R2:signal-layout')
+        n = len(op['x'][0][0]) if case['level'] == 'mu' and op['x'] and op['x'][0] else (len(op['x'][0]) if op['x'] else 0)
+        if n == 0:
+            t.append('R2:size0')
+        if n == 1:
+            t.append('R5:one-symbol')
+        if op.get('scale', 0):
+            t.append('R6:scaled')
+        if op.get('expect') == 'reject':
+            t.append('R4:rejected-transmission')
+        if k == 'fx':
+            if op.get('fft_type'):
+                t.append('R1:fft-type')
+            if op['sel']['kind'] == 'idx' and op['sel'].get('dtype', 'int64') != 'int64':
+                t.append('R1:idx-dtype')
+            if op['sel']['kind'] == 'idx' and op['sel'].get('layout', 'c') != 'c' and op['sel'].get('as_array', True) \
+                    and op['sel'].get('dtype') != 'list':
+                t.append('R2:idx-layout')
+            if op['fft'] == 1:
+                t.append('R5:fft1')
+    if k == 'pl':
+        if case['level'] == 'mu':
+            if any(v == '0' for r in (op.get('s') or []) for v in r):
+                t.append('R5:pl-matrix-zero')
+            if op.get('pldtype') not in (None, 'float64'):
+                t.append('R1:pl-dtype')
+            if op.get('pllayout', 'c') != 'c':
+                t.append('R2:pl-layout')
+            if any(v == '1/1048576' for r in (op.get('s') or []) for v in r):
+                t.append('R6:tiny-pathloss')
+        else:
+            if op.get('s') == '0':
+                t.append('R5:pl0')
+            if op.get('s') == '1':
+                t.append('R5:pl1')
+            if op.get('s') is None and op.get('p') is None:
+                t.append('R5:pl-none')
+            if op.get('pltype'):
+                t.append('R1:pl-type')
+            if op.get('s') == '1/1048576':
+                t.append('R6:tiny-pathloss')
+    if k in ('plbad', 'swbad') or (k == 'ir' and op.get('expect') == 'reject'):
+        t.append('R4:rejected-setter')
+    if k == 'setant':
+        t.append('R7:set_num_antennas')
+        if op['ant'] is None:
+            t.append('R7:set_num_antennas-none')
+    if k == 'gen':
+        t.append('R7:generate_impulse_response')
+    return t
 
 
 def case_features(case):
@@ -483,13 +896,28 @@ def case_features(case):
     f.add('gen:' + ('jakes' if case['jakes'] else 'rayleigh'))
     f.add('level:' + case['level'])
     f.add('ant:' + ('siso' if case['ant'] is None else ('mimo-nr!=nt' if case['ant'][0] != case['ant'][1] else 'mimo')))
+    if case.get('prof_dtype'):
+        f.add('R1:profile-dtype')
+    if case.get('prof_layout', 'c') != 'c':
+        f.add('R2:profile-layout')
+    if len(case['delays']) == 1:
+        f.add('R5:single-tap')
+    if case['level'] == 'mu' and case['nrx'] == 1 and case['ntx'] == 1:
+        f.add('R5:K=1')
     sw = False
     ntx = 0
+    rejected_before = False
     for op in case['ops']:
+        for t in op_tags(case, op):
+            f.add(t)
+        if op.get('expect') == 'reject':
+            rejected_before = True
         if op['op'] == 'sw':
             sw = op['v']
         if op['op'] in ('tx', 'fx'):
             ntx += 1
+            if rejected_before and op.get('expect') == 'ok':
+                f.add('R4:continued-after-rejection')
             f.add(('td' if op['op'] == 'tx' else 'fd') + (':switched' if sw else ':direct'))
             if op['op'] == 'fx':
                 f.add('sel:' + op['sel']['kind'])
@@ -505,6 +933,7 @@ def case_features(case):
             f.add('pathloss')
     if ntx >= 2:
         f.add('history>=2')
+    f.add('R3:snapshots-compared')
     return f
 
 
@@ -517,12 +946,12 @@ def correspondence(ctx, n_su, n_mu, quick):
         cases.append(gen_case(ctx.rng, 'mu', quick))
     cases += corpus_cases()
     replies = drv.ask([case_line(c) for c in cases])
+    disagreeing = []
     for c, rep in zip(cases, replies):
         impl = run_impl(c)
         model = rep.split(' # ') if rep else []
-        feats = case_features(c)
-        for ft in feats:
-            ctx.branch(ft)
+        for ft in case_features(c):
+            ctx.branch('corr:' + ft if ft.startswith('R') else ft)
         for t in impl:
             if t.startswith('error:'):
                 ctx.branch('impl-' + t)
@@ -530,8 +959,13 @@ def correspondence(ctx, n_su, n_mu, quick):
         nontriv = len(c['delays']) >= 2 or c['ant'] is not None
         ok = ctx.corr(name, {'line': case_line(c), 'case': c}, impl, model, nontrivial=nontriv,
                       key=case_line(c))
+        if not ok:
+            disagreeing.append(c)
         if ok and len(ctx.samples) < 3:
             ctx.sample({'line': case_line(c)[:300], 'reply': ' # '.join(impl)[:300]})
+    # a disagreement is not a verdict: the first-principles history oracle has to find the input
+    for c in disagreeing[:40]:
+        run_oracle(ctx, 'transmit', c)
 
 
 def corpus_cases():
@@ -558,6 +992,66 @@ def corpus_cases():
     c = dict(base, ops=[{'op': 'fx', 'fft': 4, 'sel': {'kind': 'all'}, 'x': x12}, {'op': 'ir'},
                         {'op': 'fx', 'fft': 4, 'sel': {'kind': 'all'}, 'x': x8}, {'op': 'ir'}])
     out.append(c)
+    # R5 / C03_3: a path loss of exactly 0 (int and float) is a path loss, not "none"
+    for s, t in (('0', 'int'), ('0', None), ('0', 'float32'), ('1', 'int8')):
+        c = dict(base, level='su', ops=[{'op': 'pl', 's': s, 'pltype': t}, {'op': 'tx', 'x': x8}, {'op': 'ir'},
+                                        {'op': 'fx', 'fft': 4, 'sel': {'kind': 'all'}, 'x': x8}, {'op': 'ir'},
+                                        {'op': 'pl', 's': None}, {'op': 'tx', 'x': x8}, {'op': 'ir'}])
+        out.append(c)
+    c = dict(base, level='mu', nrx=2, ntx=2, ops=[{'op': 'pl', 's': [['0', '1/2'], ['1', '0']], 'pldtype': 'float32',
+                                                   'pllayout': 'f'},
+                                                  {'op': 'tx', 'x': [x8, x8]}, {'op': 'ir'},
+                                                  {'op': 'pl', 's': [['0', '1'], ['1', '0']], 'pldtype': 'int'},
+                                                  {'op': 'fx', 'fft': 4, 'sel': {'kind': 'all'}, 'x': [x8, x8]}, {'op': 'ir'}])
+    out.append(c)
+    # R1: narrow numpy integers as fft_size with signals longer than the type's range
+    xl = gen_signal(core.Rng(6, 'c03corpus'), 1, 272)
+    for t, fft, n in (('uint8', 16, 272), ('int8', 8, 136), ('uint16', 16, 272)):
+        c = dict(base, ops=[{'op': 'fx', 'fft': fft, 'sel': {'kind': 'all'}, 'x': [xl[0][:n]], 'fft_type': t},
+                            {'op': 'ir'}])
+        out.append(c)
+    # R4: rejected calls in the middle of a history (wrong row count, index outside the axis, bad setters)
+    x23 = gen_signal(core.Rng(7, 'c03corpus'), 2, 6)
+    c = dict(base, level='su', ant=[2, 3], ops=[
+        {'op': 'tx', 'x': x3, 'siso': False}, {'op': 'ir'},
+        {'op': 'tx', 'x': x23, 'siso': False, 'expect': 'reject', 'reject_class': 'wrong-row-count'}, {'op': 'ir'},
+        {'op': 'fx', 'fft': 8, 'sel': {'kind': 'idx', 'idx': [1, 8]}, 'x': [r[:2] for r in x3], 'siso': False,
+         'expect': 'reject', 'reject_class': 'bad-selection'}, {'op': 'ir'},
+        {'op': 'plbad', 'p': 1.5, 'expect': 'reject'}, {'op': 'swbad', 'v': 1, 'expect': 'reject'},
+        {'op': 'tx', 'x': x3, 'siso': False}, {'op': 'ir'}])
+    out.append(c)
+    c = dict(base, level='mu', nrx=2, ntx=2, ops=[
+        {'op': 'pl', 's': [['1/2', '1/2'], ['1/2', '1/2']]},
+        {'op': 'plbad', 'p': [[0.25, 0.25], [0.25, 1.5]], 'expect': 'reject'},
+        {'op': 'tx', 'x': [x8, x8]}, {'op': 'ir'},
+        {'op': 'tx', 'x': [x8], 'expect': 'reject', 'reject_class': 'wrong-source-count'}, {'op': 'ir'},
+        {'op': 'tx', 'x': [x8, x8]}, {'op': 'ir'}])
+    out.append(c)
+    # R7: set_num_antennas in the middle of a history, back to SISO, user-called generate_impulse_response
+    c = dict(base, ops=[{'op': 'tx', 'x': x8}, {'op': 'setant', 'ant': [2, 1]},
+                        {'op': 'tx', 'x': x8, 'siso': False, 'as1d': True}, {'op': 'ir'},
+                        {'op': 'setant', 'ant': None}, {'op': 'tx', 'x': x8, 'siso': True}, {'op': 'ir'},
+                        {'op': 'gen', 'n': 3}, {'op': 'ir'}, {'op': 'tx', 'x': x8, 'siso': True}, {'op': 'ir'}])
+    out.append(c)
+    # R1 / R2 / R5 / R6 in one history: single tap not at delay 0, integer profile arrays, one symbol, no symbol,
+    # fft_size 1, narrow integer index array in a strided view, scaled complex64 signal, tiny path loss
+    r1 = gen_signal(core.Rng(8, 'c03corpus'), 1, 1, real=True)
+    r4 = gen_signal(core.Rng(9, 'c03corpus'), 1, 4)
+    c = dict(base, level='su', delays=[3], amps=['2'], Ts=1.0, prof_dtype='int', prof_layout='strided', ops=[
+        {'op': 'pl', 's': '1/1048576'},
+        {'op': 'tx', 'x': r1, 'dtype': 'int16', 'layout': 'strided', 'real': True}, {'op': 'ir'},
+        {'op': 'tx', 'x': [[]], 'layout': 'strided'}, {'op': 'ir'},
+        {'op': 'fx', 'fft': 1, 'sel': {'kind': 'idx', 'idx': [0, 0], 'dtype': 'int16', 'layout': 'strided',
+                                       'as_array': True}, 'x': r4, 'scale': 40, 'dtype': 'complex64', 'layout': 'rev'},
+        {'op': 'ir'},
+        {'op': 'pl', 's': '1/2', 'pltype': 'float16'}, {'op': 'tx', 'x': r4, 'scale': -40}, {'op': 'ir'}])
+    out.append(c)
+    c = dict(base, level='mu', nrx=1, ntx=1, ant=[2, 2], ops=[
+        {'op': 'pl', 's': [['1/1048576']], 'pllayout': 'T'},
+        {'op': 'tx', 'x': [gen_signal(core.Rng(10, 'c03corpus'), 2, 3)], 'siso': False, 'layout': 'f'}, {'op': 'ir'}])
+    out.append(c)
+    for c in out:
+        c.setdefault('Ts', 1e-3)
     return out
 
 
@@ -695,7 +1189,7 @@ def fft_contract(ctx, n):
 
 # --------------------------------------------------------------------------- oracles (first principles, real code)
 def _real_channel(case):
-    """untouched generators (real Jakes waveform / real Rayleigh draws), real dB profile"""
+    """old-style oracle scenario: untouched generators, dB profile given in seconds"""
     from pyphysim.channels import fading, fading_generators as fg, singleuser, multiuser
     np.random.seed(case['npseed'])
     Ts = case['Ts']
@@ -719,7 +1213,12 @@ def _real_channel(case):
             gen.shape = None
             ch = multiuser.MuMimoChannel(N, case['ant'][0], case['ant'][1], gen, tap_powers_dB=pdb,
                                          tap_delays=dl, Ts=Ts)
+        ch._verif_proto = gen
     return ch
+
+
+def any_channel(case):
+    return _real_channel(case) if 'delays_s' in case else build_channel(case)
 
 
 def dft_matrix(N):
@@ -754,13 +1253,12 @@ def conv_expected(dense, x, switched, mimo):
 
 def freq_expected(dense, x, fft, sel, switched, mimo):
     """per block b: y[j][bB+q] = sum_a DFT_fft(dense[:, j, a, b])[idx[q]] * x[a][bB+q]"""
-    pyidx = sel2py(sel)
-    if pyidx is None:
+    if sel['kind'] == 'all':
         idx = list(range(fft))
-    elif isinstance(pyidx, slice):
-        idx = list(range(fft))[pyidx]
+    elif sel['kind'] == 'slice':
+        idx = list(range(fft))[slice(*sel['slice'])]
     else:
-        idx = [list(range(fft))[int(i)] for i in pyidx]      # Python list indexing: wraps negatives, raises when out of range
+        idx = [list(range(fft))[int(i)] for i in sel['idx']]   # Python list indexing: wraps negatives, raises when out of range
     B = len(idx)
     n = x.shape[-1]
     nb = n // B
@@ -797,9 +1295,23 @@ def allclose(a, b):
     return bool(np.all(np.abs(a - b) <= 1e-9 * scale))
 
 
+def close_rel(a, b, ref):
+    """R6: |a - b| <= 1e-9 * ref, where ref is the magnitude of the terms that were summed
+    (never a fixed floor); ref == 0 demands exact equality"""
+    a = np.asarray(a, dtype=complex)
+    b = np.asarray(b, dtype=complex)
+    if a.shape != b.shape:
+        return False
+    if not np.all(np.isfinite(a)):
+        return False
+    return bool(np.all(np.abs(a - b) <= 1e-9 * ref))
+
+
 def slice_class(sel, fft):
     if sel['kind'] != 'slice':
         return sel['kind']
+    if sel['slice'][2] == 0:
+        return 'slice:zero-step'
     a, b, c = slice(*sel['slice']).indices(fft)
     ln = len(range(a, b, c))
     if ln > 0 and (b - a) % c != 0:
@@ -807,93 +1319,146 @@ def slice_class(sel, fft):
     return 'slice:step-dividing-span' if ln > 0 else 'slice:empty'
 
 
-def oracle_signal(xs, mu, mimo, as1d):
-    """the array handed to the real code.  A transmitter with ONE antenna (MIMO link whose input
-    side has one row: nt == 1, or nr == 1 in the switched direction) may pass its stream as (1, n)
-    or as (n,); a multiuser channel with ONE source may pass its whole signal without the source
-    axis.  Returns (signal, stream-class or None)."""
-    stream = None
-    if mimo and xs[0].ndim == 2 and xs[0].shape[0] == 1:
-        stream = 'single-stream-1d' if as1d else 'single-stream-2d'
-        if as1d:
-            xs = [x[0] for x in xs]
-    if not mu:
-        return xs[0], stream
-    sig = np.array(xs)
-    if not mimo and len(xs) == 1:
-        stream = 'single-source-1d' if as1d else 'single-source-2d'
-        if as1d:
-            sig = sig[0]
-    return sig, stream
-
-
-def o_transmit(case):
-    """time-domain or frequency-domain transmissions on ONE real object, each compared with
-    the first-principles formula evaluated on the response reported right after it"""
-    mimo = case['ant'] is not None
-    ch = _real_channel(case)
+def stream_class(case, op, mimo, xs):
+    """how a single-stream / single-source signal is handed over (None when there are several rows)"""
     mu = case['level'] == 'mu'
+    if mimo and xs and xs[0].ndim == 2 and xs[0].shape[0] == 1:
+        return 'single-stream-1d' if op.get('as1d') else 'single-stream-2d'
+    if mu and not mimo and len(xs) == 1:
+        return 'single-source-1d' if op.get('as1d') else 'single-source-2d'
+    return None
+
+
+def o_history(case):
+    """ONE real object driven through a whole history (scripted or untouched fading, always the real FFT).
+    Checked from first principles:
+      * every accepted transmission against the formula evaluated on the response reported right after it
+        (relative to the scale of the inputs: R6), whatever element type / layout / shape the input had (R1, R2);
+      * an exception on a valid call, and a rejected call that changed anything observable (R4);
+      * inputs unchanged, earlier outputs unchanged, outputs not aliasing inputs (R3);
+      * with rejected calls in the history: a twin object that never saw them gives the same later outputs (R4);
+      * shared objects (profile, prototype generator of a multiuser channel) unchanged (R7)."""
+    mu = case['level'] == 'mu'
+    ch = any_channel(case)
+    proto = getattr(ch, '_verif_proto', None)
+    proto_state = None if proto is None else (proto.shape, getattr(proto, '_current_time', None),
+                                              getattr(proto, '_pos', None))
+    prof = links_of(ch, case)[0][0].channel_profile
+    prof_state = (np.asarray(prof.tap_delays).tobytes(), np.asarray(prof.tap_powers_linear).tobytes(), prof.Ts)
+    rec = Rec()
     sw = False
-    for op in case['ops']:
+    cur_siso = case['ant'] is None
+    accepted = []           # (op index, kind, result arrays) of accepted transmissions
+    any_rejected = False
+    for oi, op in enumerate(case['ops']):
         k = op['op']
+        tags = ':'.join(sorted(set(t.split(':')[0] for t in op_tags(case, op))))
+        before = observe(ch, case)
+        try:
+            res = apply_op(ch, case, op, rec, False)
+            exc = None
+        except Exception as e:      # noqa
+            res, exc = None, e
+        if k in ('tx', 'fx'):
+            mimo = not op.get('siso', cur_siso)
+            kind = 'td' if k == 'tx' else 'fd'
+            cfg = ('mu-' if mu else '') + ('siso' if not mimo else ('mimo-switched' if sw else 'mimo'))
+            sc = op.get('scale', 0)
+            xs = [x2np(x, sc) for x in (op['x'] if mu else [op['x']])]
+            stream = stream_class(case, op, mimo, xs)
+            inp = ':'.join(t for t in (stream, cfg, slice_class(op['sel'], op['fft']) if k == 'fx' else None,
+                                       tags or None) if t)
+        else:
+            kind, inp = 'setter', k + (':' + tags if tags else '')
+        expect = op.get('expect', 'ok')
+        if exc is not None:
+            any_rejected = True
+            if expect == 'ok':
+                if k == 'fx' and not (stream and stream.endswith('1d')) and not tags:
+                    cls = 'fd:exception:' + slice_class(op['sel'], op['fft'])
+                else:
+                    cls = '%s:exception:%s' % (kind, inp)
+                return cls, 'op %d %s: %s: %r' % (oi, k, type(exc).__name__, exc)
+            if observe(ch, case) != before:
+                return ('R4:rejected-call-changed-state:%s:%s' % (k, op.get('reject_class', 'guard')),
+                        'op %d %s raised %s but the object is not as it was before the call'
+                        % (oi, k, type(exc).__name__))
+            continue
+        if expect == 'reject':
+            return ('R4:invalid-call-accepted:%s:%s' % (k, op.get('reject_class', 'guard')),
+                    'op %d %s was accepted' % (oi, k))
         if k == 'sw':
             sw = bool(op['v'])
-            ch.switched_direction = sw
+        if k == 'setant':
+            cur_siso = op['ant'] is None
+        if k not in ('tx', 'fx'):
             continue
-        if k == 'pl':
-            if mu:
-                ch.set_pathloss(np.array(op['p'], dtype=float))
-            else:
-                ch.set_pathloss(op['p'])
-            continue
-        kind = 'td' if k == 'tx' else 'fd'
-        cfg = ('mu-' if mu else '') + ('siso' if not mimo else ('mimo-switched' if sw else 'mimo'))
-        cls_in = cfg if k == 'tx' else cfg + ':' + slice_class(op['sel'], op['fft'])
-        xs = [x2np(x) for x in (op['x'] if mu else [op['x']])]
+        # ---- an accepted transmission: compare with first principles on the responses reported now
+        y = res[1]
         if not mimo:
             xs = [x.reshape(-1) for x in xs]
-        sig, stream = oracle_signal(xs, mu, mimo, bool(op.get('as1d')))
-        try:
-            if k == 'tx':
-                y = ch.corrupt_data(sig)
-            else:
-                y = ch.corrupt_data_in_freq_domain(sig, op['fft'], sel2py(op['sel']))
-        except Exception as e:
-            # class from the input only (stream shape, antenna set-up, selection geometry), not from the message
-            if stream is not None:
-                cls = '%s:exception:%s:%s' % (kind, stream, cls_in)
-            else:
-                cls = '%s:exception:%s' % (kind, slice_class(op['sel'], op['fft']) if k == 'fx' else cfg)
-            return cls, '%s on %s, signal shape %s: %r' % (type(e).__name__, cfg, np.asarray(sig).shape, e)
-        # expected, from the responses reported now
         if mu:
             nrx, ntx = case['nrx'], case['ntx']
-            nout_links = ntx if sw else nrx
-            exp = []
-            for j in range(nout_links):
-                acc = None
+            exp, refs = [], []
+            for j in range(ntx if sw else nrx):
+                acc, ref = None, 0.0
                 for a in range(nrx if sw else ntx):
                     r, t = (a, j) if sw else (j, a)
-                    ir = ch.get_last_impulse_response(r, t)
-                    dense = np.asarray(ir.tap_values)
+                    dense = np.asarray(ch.get_last_impulse_response(r, t).tap_values)
                     e = (conv_expected(dense, xs[a], sw, mimo) if k == 'tx'
                          else freq_expected(dense, xs[a], op['fft'], op['sel'], sw, mimo))
                     acc = e if acc is None else acc + e
+                    ref += (float(np.max(np.abs(dense))) if dense.size else 0.0) * \
+                           (float(np.max(np.abs(xs[a]))) if xs[a].size else 0.0) * max(1, dense.shape[0]) * 4
                 exp.append(acc)
+                refs.append(ref)
             ys = list(y)
         else:
-            ir = ch.get_last_impulse_response()
-            dense = np.asarray(ir.tap_values)
+            dense = np.asarray(ch.get_last_impulse_response().tap_values)
             exp = [conv_expected(dense, xs[0], sw, mimo) if k == 'tx'
                    else freq_expected(dense, xs[0], op['fft'], op['sel'], sw, mimo)]
+            refs = [(float(np.max(np.abs(dense))) if dense.size else 0.0) *
+                    (float(np.max(np.abs(xs[0]))) if xs[0].size else 0.0) * max(1, dense.shape[0]) * 4]
             ys = [y]
-        tag = (stream + ':' if stream is not None and stream.endswith('1d') else '') + cls_in
-        for yy, ee in zip(ys, exp):
-            if np.asarray(yy).shape != ee.shape:
-                return '%s:shape:%s' % (kind, tag), 'got %s expected %s' % (np.asarray(yy).shape, ee.shape)
-            if not allclose(yy, ee):
-                return ('%s:value:%s' % (kind, tag), 'signal shape %s: max |y - expected| = %g'
-                        % (np.asarray(sig).shape, float(np.max(np.abs(yy - ee)))))
+        accepted.append((oi, [np.array(v, copy=True) for v in ys]))
+        for yy, ee, ref in zip(ys, exp, refs):
+            yy = np.asarray(yy)
+            if yy.shape != ee.shape:
+                return '%s:shape:%s' % (kind, inp), 'op %d: got %s expected %s' % (oi, yy.shape, ee.shape)
+            if not np.issubdtype(yy.dtype, np.complexfloating) or yy.dtype.itemsize < 16:
+                return '%s:dtype:%s' % (kind, inp), 'op %d: result dtype %s' % (oi, yy.dtype)
+            if not close_rel(yy, ee, ref):
+                return ('%s:value:%s' % (kind, inp), 'op %d: max |y - expected| = %g at input scale %g'
+                        % (oi, float(np.max(np.abs(yy - ee))), ref))
+    viol = rec.violations()
+    if viol:
+        return 'R3:' + viol[0], 'after the whole history: ' + ', '.join(viol)
+    if proto is not None and proto_state != (proto.shape, getattr(proto, '_current_time', None),
+                                              getattr(proto, '_pos', None)):
+        return 'R7:shared-prototype-generator-modified', 'the generator handed to the multiuser channel changed'
+    if prof_state != (np.asarray(prof.tap_delays).tobytes(), np.asarray(prof.tap_powers_linear).tobytes(), prof.Ts):
+        return 'R7:shared-profile-modified', 'the channel profile object changed during the history'
+    if any_rejected:
+        # the twin never sees the calls that were rejected
+        twin_case = dict(case, ops=[dict(op) for op in case['ops']])
+        ch2 = any_channel(twin_case)
+        rec2 = Rec()
+        got = []
+        for oi, op in enumerate(case['ops']):
+            if op.get('expect', 'ok') == 'reject':
+                continue
+            try:
+                res = apply_op(ch2, case, op, rec2, False)
+            except Exception:
+                continue
+            if op['op'] in ('tx', 'fx'):
+                got.append((oi, [np.array(v, copy=True) for v in (list(res[1]) if mu else [res[1]])]))
+        for (oi, ya), (oj, yb) in zip(accepted, got):
+            if oi != oj or len(ya) != len(yb) or any(a.shape != b.shape or not np.array_equal(a, b)
+                                                      for a, b in zip(ya, yb)):
+                return ('R4:history-differs-from-object-without-rejected-calls',
+                        'transmission at op %d differs from the same transmission on a fresh object that '
+                        'never saw the rejected calls' % oi)
     return None
 
 
@@ -921,7 +1486,10 @@ def o_linear(case):
             if case['kind'] == 'td':
                 outs.append(np.asarray(ch.corrupt_data(sig)))
             else:
-                outs.append(np.asarray(ch.corrupt_data_in_freq_domain(sig, case['fft'], sel2py(case['sel']))))
+                sel = case['sel']
+                idx = None if sel['kind'] == 'all' else (slice(*sel['slice']) if sel['kind'] == 'slice'
+                                                        else np.array(sel['idx'], dtype=int))
+                outs.append(np.asarray(ch.corrupt_data_in_freq_domain(sig, case['fft'], idx)))
         except Exception as e:
             cfg = 'siso' if not mimo else ('mimo-switched' if case.get('sw') else 'mimo')
             if stream is not None:
@@ -929,7 +1497,8 @@ def o_linear(case):
                         '%s, signal shape %s: %r' % (type(e).__name__, np.asarray(sig).shape, e))
             return ('%s:exception:%s' % (case['kind'], slice_class(case['sel'], case['fft']) if case['kind'] == 'fd'
                                          else cfg), '%s: %r' % (type(e).__name__, e))
-    if not allclose(outs[2], a * outs[0] + b * outs[1]):
+    ref = float(np.max(np.abs(outs[0])) + np.max(np.abs(outs[1]))) * (abs(a) + abs(b) + 1)
+    if not close_rel(outs[2], a * outs[0] + b * outs[1], ref):
         return 'not-linear:' + case['kind'], 'max dev %g' % float(np.max(np.abs(outs[2] - a * outs[0] - b * outs[1])))
     return None
 
@@ -941,17 +1510,35 @@ def o_discretize(case):
     ds = [Fraction(d) for d in case['delays']]
     ps = [Fraction(p) for p in case['powers']]
     idx0 = [py_round_half_even(d / Ts) for d in ds]
+    p_arr = linear2dB(np.array([float(p) for p in ps]))
+    d_arr = np.array([float(d) for d in ds])
+    lay = case.get('layout', 'c')
+    if lay != 'c':                                  # R2: strided views of the profile arrays
+        p_arr, d_arr = layout_view(p_arr, lay), layout_view(d_arr, lay)
+    if case.get('dtype') == 'float32' and all(float(np.float32(float(d))) == float(d) for d in ds):
+        d_arr = d_arr.astype(np.float32)            # R1: exact in float32 only
+    keep = (p_arr.copy(), d_arr.copy())
+    Ts_arg = float(Ts)
+    if case.get('ts_type') == 'int' and Ts.denominator == 1:
+        Ts_arg = int(Ts)
+    elif case.get('ts_type') == 'float32' and float(np.float32(float(Ts))) == float(Ts):
+        Ts_arg = np.float32(float(Ts))
     try:
-        prof = fading.TdlChannelProfile(linear2dB(np.array([float(p) for p in ps])),
-                                        np.array([float(d) for d in ds]))
-        dp = prof.get_discretize_profile(float(Ts))
+        prof = fading.TdlChannelProfile(p_arr, d_arr)
+        dp = prof.get_discretize_profile(Ts_arg)
+        dp2 = prof.get_discretize_profile(Ts_arg)       # R7: asking again gives the same, the source profile is intact
     except Exception as e:
         # a valid profile that cannot be built / discretised at all
         return ('discretize:exception:' + ('single-delay' if len(set(ds)) == 1 else
                                            ('one-output-tap' if len(set(idx0)) == 1 else 'several-delays')),
                 '%s: %r' % (type(e).__name__, e))
+    if not (np.array_equal(p_arr, keep[0]) and np.array_equal(d_arr, keep[1])):
+        return 'R3:input-modified:profile-arrays', 'tap arrays changed by TdlChannelProfile / get_discretize_profile'
+    if prof.is_discretized or not np.array_equal(dp.tap_delays, dp2.tap_delays) \
+            or not np.array_equal(dp.tap_powers_linear, dp2.tap_powers_linear):
+        return 'R7:discretize-not-repeatable', 'second get_discretize_profile differs / source profile changed'
     got_d = [int(d) for d in dp.tap_delays]
-    idx = [py_round_half_even(d / Ts) for d in ds]
+    idx = idx0
     exp_d = sorted(set(idx))
     cls = 'colliding' if len(exp_d) < len(ds) else 'distinct'
     if got_d != exp_d or any(not float(d).is_integer() for d in dp.tap_delays):
@@ -966,10 +1553,58 @@ def o_discretize(case):
     return None
 
 
+def o_shared(case):
+    """R7: objects shared between two users of the API.  Two channels built from ONE profile object
+    (the library ships module-level profiles) with different sampling intervals, and two multiuser
+    channels built from ONE prototype generator: using one must not change what the other does."""
+    from pyphysim.channels import fading, fading_generators as fg, multiuser
+    prof = {'TU': fading.COST259_TUx, 'RA': fading.COST259_RAx, 'HT': fading.COST259_HTx}.get(case['profile'])
+    if prof is None:
+        prof = fading.TdlChannelProfile(np.array(case['powers_dB'], dtype=float), np.array(case['delays_s'], dtype=float))
+    state = (prof.tap_delays.copy(), prof.tap_powers_dB.copy(), prof.Ts, prof.is_discretized)
+    x = x2np(case['x']).reshape(-1)
+
+    def run(Ts, seed):
+        np.random.seed(seed)
+        ch = fading.TdlChannel(fg.JakesSampleGenerator(Ts=Ts, RS=np.random.RandomState(seed)), channel_profile=prof)
+        return ch, ch.corrupt_data(x)
+    chA, yA = run(case['TsA'], 1)
+    chB, yB = run(case['TsB'], 2)          # a second user of the same profile object, other sampling interval
+    chA2, yA2 = run(case['TsA'], 1)        # the first configuration again, after the profile was used by B
+    if not (np.array_equal(prof.tap_delays, state[0]) and np.array_equal(prof.tap_powers_dB, state[1])
+            and prof.Ts == state[2] and prof.is_discretized == state[3]):
+        return 'R7:shared-profile-modified', 'building channels changed the shared profile object'
+    if yA.shape != yA2.shape or not np.array_equal(yA, yA2):
+        return 'R7:shared-profile-users-interfere', 'same configuration gives another output after another user'
+    yA_later = chA.corrupt_data(x)
+    yA2_later = chA2.corrupt_data(x)
+    if not np.array_equal(yA_later, yA2_later):
+        return 'R7:shared-profile-users-interfere', 'later transmissions of twin objects differ'
+    # one prototype generator, two multiuser channels
+    np.random.seed(3)
+    proto = fg.JakesSampleGenerator(Ts=case['TsA'], RS=np.random.RandomState(3))
+    st = (proto.shape, proto._current_time)
+    m1 = multiuser.MuChannel(2, proto, channel_profile=prof)
+    m2 = multiuser.MuChannel((1, 2), proto, channel_profile=prof)
+    sig = np.array([x, x])
+    o1 = m1.corrupt_data(sig)
+    m2.set_pathloss(np.array([[0.25, 0.0]]))
+    m2.switched_direction = True
+    o2 = m2.corrupt_data(np.array([x]))
+    if (proto.shape, proto._current_time) != st:
+        return 'R7:shared-prototype-generator-modified', 'the prototype generator changed'
+    if m1.switched_direction or m1.pathloss_matrix is not None:
+        return 'R7:multiuser-channels-interfere', 'settings of one multiuser channel visible in the other'
+    if len(o1) != 2 or len(o2) != 2:
+        return 'R7:multiuser-channels-interfere', 'unexpected output counts'
+    return None
+
+
 ORACLES = {
-    'transmit': o_transmit,
+    'transmit': o_history,
     'linearity': o_linear,
     'get_discretize_profile': o_discretize,
+    'shared-objects': o_shared,
 }
 
 
@@ -1006,7 +1641,7 @@ def gen_oracle_case(rng, level, only=None):
     if rng.chance(0.2):
         pdb, dl = [-5.7, -7.6, -10.1, -10.2, -10.2, -11.5, -13.4], [0, 217, 512, 514, 517, 674, 882]
         dl = [d * 1e-9 for d in dl]
-        Ts = 3.25e-8 if not jakes or True else Ts
+        Ts = 3.25e-8
     else:
         pdb, du = rng.choice(REAL_PROFILES)
         dl = [d * Ts for d in du]
@@ -1024,16 +1659,18 @@ def gen_oracle_case(rng, level, only=None):
             ops.append({'op': 'sw', 'v': sw})
         if level != 'tdl' and rng.chance(0.3):
             if level == 'mu':
-                ops.append({'op': 'pl', 'p': [[rng.uniform(0.01, 1.0) for _ in range(case['ntx'])]
+                ops.append({'op': 'pl', 'p': [[rng.choice([0.0, 1.0, rng.uniform(1e-24, 1.0)]) for _ in range(case['ntx'])]
                                               for _ in range(case['nrx'])]})
             else:
-                ops.append({'op': 'pl', 'p': rng.uniform(0.01, 1.0)})
+                ops.append({'op': 'pl', 'p': rng.choice([0, 0.0, 1, 1.0, rng.uniform(0.01, 1.0), 1e-24])})
         rows = 1 if case['ant'] is None else (case['ant'][0] if sw else case['ant'][1])
         nsrc = 1 if level != 'mu' else (case['nrx'] if sw else case['ntx'])
+        scale = rng.choice([0, 0, 40, -40])
         if (only or ('td' if rng.chance(0.5) else 'fd')) == 'td':
             n = rng.randint(1, 12)
             xs = [gen_signal(rng, rows, n) for _ in range(nsrc)]
-            ops.append({'op': 'tx', 'x': xs if level == 'mu' else xs[0], 'as1d': rng.chance(0.5)})
+            ops.append({'op': 'tx', 'x': xs if level == 'mu' else xs[0], 'as1d': rng.chance(0.5), 'scale': scale,
+                        'layout': rng.choice(['c', 'f', 'strided', 'rev'])})
         else:
             while True:
                 fft = rng.randint(1, 16)
@@ -1043,7 +1680,7 @@ def gen_oracle_case(rng, level, only=None):
             n = B * rng.randint(1, 3)
             xs = [gen_signal(rng, rows, n) for _ in range(nsrc)]
             ops.append({'op': 'fx', 'fft': fft, 'sel': sel, 'x': xs if level == 'mu' else xs[0],
-                        'as1d': rng.chance(0.5)})
+                        'as1d': rng.chance(0.5), 'scale': scale, 'layout': rng.choice(['c', 'f', 'strided', 'rev'])})
     case['ops'] = ops
     return case
 
@@ -1119,6 +1756,42 @@ def single_stream_witnesses():
     return out
 
 
+def pathloss_boundary_witnesses():
+    """R5 / C03_3: path loss exactly 0 / 0.0 / 1 / None on SuChannel, zero entries in the matrix of a
+    MuChannel / MuMimoChannel, in both domains and directions: output AND reported response scaled alike"""
+    rng = core.Rng(41, 'c03pl0')
+    out = []
+    for level in ('su', 'mu'):
+        for ant in (None, [2, 2], [1, 2]):
+            for sw in (False, True):
+                for kind in ('tx', 'fx'):
+                    for p in (0, 0.0, 1, None, 1e-24):
+                        case = {'level': level, 'npseed': rng.below(1 << 30), 'jakes': rng.chance(0.5), 'ant': ant,
+                                'Ts': 1e-3, 'powers_dB': [0.0, -3.0], 'delays_s': [0.0, 2e-3]}
+                        if level == 'mu':
+                            case['nrx'], case['ntx'] = 2, 2
+                            if p is None:
+                                continue
+                        ops = [{'op': 'pl', 'p': 0.5 if level == 'su' else [[0.5, 0.5], [0.5, 0.5]]}]   # a positive one first
+                        if sw:
+                            ops.append({'op': 'sw', 'v': True})
+                        if level == 'su':
+                            ops.append({'op': 'pl', 'p': p, 's': None})
+                        else:
+                            ops.append({'op': 'pl', 'p': [[p, 0.25], [1.0, p]]})
+                        rows = 1 if ant is None else (ant[0] if sw else ant[1])
+                        nsrc = 1 if level != 'mu' else 2
+                        if kind == 'tx':
+                            xs = [gen_signal(rng, rows, 5) for _ in range(nsrc)]
+                            ops.append({'op': 'tx', 'x': xs if level == 'mu' else xs[0]})
+                        else:
+                            xs = [gen_signal(rng, rows, 8) for _ in range(nsrc)]
+                            ops.append({'op': 'fx', 'fft': 4, 'sel': {'kind': 'all'}, 'x': xs if level == 'mu' else xs[0]})
+                        case['ops'] = ops
+                        out.append(case)
+    return out
+
+
 def oracles(ctx, n_tx, n_lin, n_disc):
     # the design-round witnesses first (always the same inputs)
     for sl, fft in SLICE_WITNESSES:
@@ -1135,19 +1808,58 @@ def oracles(ctx, n_tx, n_lin, n_disc):
             ctx.branch('oracle:single-stream-1d:' + ('switched' if any(o['op'] == 'sw' for o in case['ops']) else 'direct'))
         if case['ant'] is None and case['level'] == 'mu' and op.get('as1d'):
             ctx.branch('oracle:single-source-1d')
+    for case in pathloss_boundary_witnesses():
+        run_oracle(ctx, 'transmit', case)
+        ctx.branch('oracle:R5:pl0' if case['level'] == 'su' else 'oracle:R5:pl-matrix-zero')
+    # the boundary / rejected-call / long-lived-object corpus of the correspondence, on the untouched generators
+    wr = core.Rng(51, 'c03corpus-real')
+    for c in corpus_cases():
+        rc = real_twin_of(wr, c)
+        run_oracle(ctx, 'transmit', rc)
+        for ft in case_features(rc):
+            if ft.startswith('R'):
+                ctx.branch('oracle:' + ft)
     for ds_, ps_ in (([Fraction(13, 10)], [Fraction(4, 5)]), ([Fraction(7, 10)], [Fraction(1, 6)]),
                      ([Fraction(13, 10)] * 3, [Fraction(1), Fraction(1, 2), Fraction(1, 3)])):
         run_oracle(ctx, 'get_discretize_profile', {'Ts': '1', 'delays': [fr2s(d) for d in ds_],
                                                    'powers': [fr2s(p) for p in ps_]})
     for i in range(n_tx):
         level = ('tdl', 'su', 'mu')[i % 3]
-        run_oracle(ctx, 'transmit', gen_oracle_case(ctx.rng, level))
+        if i % 2 == 0:
+            run_oracle(ctx, 'transmit', gen_oracle_case(ctx.rng, level))
+        else:
+            # the full robustness history generator (R1-R7) on the untouched generators / FFT / dB profile
+            rc = real_twin_of(ctx.rng, gen_case(ctx.rng, level, True))
+            run_oracle(ctx, 'transmit', rc, key=case_line(rc) + str(rc['npseed']))
+            for ft in case_features(rc):
+                if ft.startswith('R'):
+                    ctx.branch('oracle:' + ft)
     for _ in range(n_lin):
         run_oracle(ctx, 'linearity', gen_linear_case(ctx.rng))
     for _ in range(n_disc):
         Ts, ds, ps = gen_profile(ctx.rng)
-        run_oracle(ctx, 'get_discretize_profile', {'Ts': fr2s(Ts), 'delays': [fr2s(d) for d in ds],
-                                                   'powers': [fr2s(p) for p in ps]})
+        case = {'Ts': fr2s(Ts), 'delays': [fr2s(d) for d in ds], 'powers': [fr2s(p) for p in ps],
+                'layout': ctx.rng.choice(['c', 'c', 'strided', 'rev']), 'dtype': ctx.rng.choice([None, 'float32']),
+                'ts_type': ctx.rng.choice([None, 'int', 'float32'])}
+        run_oracle(ctx, 'get_discretize_profile', case)
+        if case['layout'] != 'c':
+            ctx.branch('oracle:R2:profile-layout')
+        if case['ts_type'] or case['dtype']:
+            ctx.branch('oracle:R1:profile-dtype')
+    # R6: one profile at many scales of delay / sampling interval and of power (quotients unchanged)
+    for k in (-12, -9, -6, -3, 0, 3, 6):
+        for pk in (-15, 0, 12):
+            Ts = Fraction(10) ** k
+            ds = [Fraction(q, 4) * Ts for q in (0, 3, 5, 9, 21)]
+            ps = [Fraction(v) * Fraction(10) ** pk for v in (4, 3, 2, 2, 1)]
+            run_oracle(ctx, 'get_discretize_profile', {'Ts': fr2s(Ts), 'delays': [fr2s(d) for d in ds],
+                                                       'powers': [fr2s(p) for p in ps]}, key=('scale', k, pk))
+            ctx.branch('oracle:R6:profile-scale')
+    # R7: shared profile object / shared prototype generator
+    for prof, TsA, TsB in (('TU', 3.25e-8, 1e-7), ('RA', 1e-7, 5e-8), ('HT', 5e-7, 3.25e-8), (None, 1e-3, 2e-3)):
+        run_oracle(ctx, 'shared-objects', {'profile': prof, 'TsA': TsA, 'TsB': TsB, 'powers_dB': [0.0, -3.0, -6.0],
+                                           'delays_s': [0.0, 1e-3, 4e-3], 'x': gen_signal(core.Rng(5, 'c03sh'), 1, 6)})
+        ctx.branch('oracle:R7:shared-objects')
     # the profiles shipped with the library, at the sampling intervals the tests use and others
     # (margin rule: only sampling intervals for which no delay/Ts is within 1e-6 of a tie)
     from pyphysim.channels import fading
@@ -1168,34 +1880,49 @@ REQUIRED = ['gen:jakes', 'gen:rayleigh', 'ant:siso', 'ant:mimo-nr!=nt', 'td:dire
             'fd:switched', 'sel:all', 'sel:idx', 'sel:slice', 'slice:neg-step', 'slice:step-not-dividing-span',
             'pathloss', 'history>=2', 'level:mu', 'level:su', 'level:tdl', 'disc:colliding-delays',
             'disc:tie-at-half', 'fft:crop', 'fft:pad', 'oracle:single-stream-1d:switched',
-            'oracle:single-stream-1d:direct', 'oracle:single-source-1d']
+            'oracle:single-stream-1d:direct', 'oracle:single-source-1d',
+            'oracle:R5:pl0', 'oracle:R5:pl-matrix-zero', 'oracle:R6:profile-scale', 'oracle:R7:shared-objects',
+            'oracle:R1:profile-dtype', 'oracle:R2:profile-layout']
+RTAGS = ['R1:signal-dtype', 'R1:fft-type', 'R1:idx-dtype', 'R1:pl-type', 'R1:pl-dtype', 'R1:profile-dtype',
+         'R2:signal-layout', 'R2:idx-layout', 'R2:pl-layout', 'R2:size0', 'R2:profile-layout',
+         'R3:snapshots-compared',
+         'R4:rejected-transmission', 'R4:rejected-setter', 'R4:continued-after-rejection',
+         'R5:pl0', 'R5:pl1', 'R5:pl-none', 'R5:pl-matrix-zero', 'R5:single-tap', 'R5:one-symbol', 'R5:fft1',
+         'R6:scaled', 'R6:tiny-pathloss',
+         'R7:set_num_antennas', 'R7:set_num_antennas-none', 'R7:generate_impulse_response']
+REQUIRED += ['corr:' + t for t in RTAGS] + ['oracle:' + t for t in RTAGS]
 
 
 def check(ctx):
     quick = ctx.tier == 'quick'
     ctx.rule = ('scenarios = one channel object (TdlChannel / SuChannel / MuChannel / MuMimoChannel; Jakes or '
                 'Rayleigh with scripted Gaussian-integer fading; SISO or MIMO up to 3x3; 1-5 taps with '
-                'perfect-square powers) driven through 1-6 seeded operations (time / frequency transmissions '
-                'with None, index-array and slice selections, direction switches, path losses) each followed by '
-                'a read of the reported response; all values compared exactly as rationals with the Lean model. '
-                'non-trivial = distinct scenario line with >= 2 taps or MIMO; oracle cases use the untouched '
-                'generators / FFT / dB profiles')
+                'perfect-square powers) driven through 1-7 seeded operations (time / frequency transmissions '
+                'with None, index-array and slice selections, direction switches, path losses incl. 0 / 1 / None, '
+                'set_num_antennas, user-called generate_impulse_response, rejected calls after which the history '
+                'goes on) with inputs in many element types, memory layouts, shapes and scales (2^-40..2^40), each '
+                'transmission followed by a read of the reported response; all values compared exactly as rationals '
+                'with the Lean model. non-trivial = distinct scenario line with >= 2 taps or MIMO; oracle cases run '
+                'the same histories on the untouched generators / FFT / dB profiles against first-principles formulas')
     core.prove(ctx, MODULE, generated=['Slice'], drivers=[DRIVER], scratch=ctx.scratch)
     ctx.required_branches = list(REQUIRED)
     np.random.seed(ctx.rng.below(1 << 31))
-    try:
-        correspondence(ctx, 900 if quick else 9000, 300 if quick else 3000, quick)
-        discretize_corr(ctx, 600 if quick else 8000)
-        slice_corr(ctx, 16, exhaustive=not quick)
-        fft_contract(ctx, 100 if quick else 2000)
-        if not quick:
-            ctx.extra['exhaustive_slices'] = 'all (start, stop, step) in [None, -N-2..N+2] x [None, -N-1..N+1], N <= 16'
-    except core.Infra as e:
-        if not ctx.broken:
-            raise
-        ctx.notes.append('correspondence skipped: %s' % e)
-        ctx.required_branches = []
-    oracles(ctx, 300 if quick else 4000, 90 if quick else 1200, 200 if quick else 3000)
+    import warnings
+    with warnings.catch_warnings():
+        warnings.simplefilter('ignore')
+        try:
+            correspondence(ctx, 900 if quick else 9000, 300 if quick else 3000, quick)
+            discretize_corr(ctx, 600 if quick else 8000)
+            slice_corr(ctx, 16, exhaustive=not quick)
+            fft_contract(ctx, 100 if quick else 2000)
+            if not quick:
+                ctx.extra['exhaustive_slices'] = 'all (start, stop, step) in [None, -N-2..N+2] x [None, -N-1..N+1], N <= 16'
+        except core.Infra as e:
+            if not ctx.broken:
+                raise
+            ctx.notes.append('correspondence skipped: %s' % e)
+            ctx.required_branches = [b for b in REQUIRED if b.startswith('oracle:')]
+        oracles(ctx, 300 if quick else 4000, 90 if quick else 1200, 200 if quick else 3000)
 
 
 def search(ctx):
